@@ -9,6 +9,7 @@ import (
 	"math/rand"
 	"os"
 	"strconv"
+	"sync"
 )
 
 var vec []uint64
@@ -37,7 +38,12 @@ func load() {
 	}
 }
 
+// nextMu: native runs may draw values from several goroutines
+var nextMu sync.Mutex
+
 func next() uint64 {
+	nextMu.Lock()
+	defer nextMu.Unlock()
 	load()
 	if pos >= len(vec) {
 		pos++
